@@ -229,12 +229,12 @@ def main(tier, seed):
         chk.job(job_consumers, 'consumers')
         chk.bounds = dict(tokens='<= 8 (depth <= 3), atoms <= 5 chars', not_command='<= 7 tokens, atoms <= 3 chars', truthiness='values <= 6 chars')
     else:
-        chk.job(job_slice, 'slice:11tok', n=11, atom_cap=5, D=3)
-        chk.job(job_slice, 'slice:13tok,short atoms', n=13, atom_cap=2, D=4)
+        chk.job(job_slice, 'slice:10tok', n=10, atom_cap=4, D=3)
+        chk.job(job_slice, 'slice:11tok,short atoms', n=11, atom_cap=2, D=3)
         chk.job(job_slice, 'not:10tok', n=10, atom_cap=3, D=3, via_not=True)
         chk.job(job_truthiness, 'is_true', cap=10)
         chk.job(job_consumers, 'consumers')
-        chk.bounds = dict(tokens='<= 11 (depth <= 3, atoms <= 5) and <= 13 (depth <= 4, atoms <= 2)', not_command='<= 10 tokens', truthiness='values <= 10 chars')
+        chk.bounds = dict(tokens='<= 10 (depth <= 3, atoms <= 4) and <= 11 (atoms <= 2)', not_command='<= 10 tokens', truthiness='values <= 10 chars')
     chk.assumptions = ['atom alphabet: ASCII + U+3042, U+20AC, U+1F600 (to_lowercase is modelled exactly only there; proof obligation inside the model)',
                        'atoms are not the words ( ) and or', 'if/elseif/while: only the call to eval_condition is checked structurally here; their runs are C04',
                        'the first token is not a registered command (command conditions are C09)']
